@@ -1,5 +1,5 @@
 import FeatherModel.Base.Driver
-import FeatherModel.Model.Nest
+import FeatherModel.Model.NestDomain
 
 open Driver Sexp Codec Nest
 
@@ -85,39 +85,87 @@ def exceptAns (f : α → Sexp) : Except String α → Ans
 /-- class names mentioned by a table -/
 def tableNames (ns : Nests) : List JStr := (ns.flatMap (fun n => [n.className, n.enclClass])).eraseDups
 
-/-- decidable domain of `Thm.C14.names_agree`: acyclic table, jar with classes, every nest kept by the filter -/
-def namesAgreeDomain (jar : Jar) (ns : Nests) : Bool :=
-  (mapTable ns).isSome && (minVersion (classesOf jar)).isSome && ((filterRun jar ns).kept == ns)
+def emptyMappings : Mappings := { ns := [jstr "a", jstr "b"], doc := none, classes := [] }
 
-/-- class names occurring in `L…;` groups of a descriptor, collected with the scanner itself -/
-def descNames (d : JStr) : List JStr :=
-  let rec go : List Nat → Option (List Nat) → List JStr → List JStr
-    | [], _, acc => acc.reverse
-    | c :: rest, none, acc => if c = MapDesc.CH_L then go rest (some []) acc else go rest none acc
-    | c :: rest, some cur, acc =>
-      if c = MapDesc.SEMI then go rest none (cur.reverse :: acc) else go rest (some (c :: cur)) acc
-  go d none []
-
-def usedNames (m : Mappings) : List JStr :=
-  (m.classes.flatMap (fun e =>
-    e.1 :: (e.2.fields.flatMap (fun f => descNames f.2.desc) ++ e.2.methods.flatMap (fun f => descNames f.2.desc)))).eraseDups
-
-/-- no `;` and non-empty: what `map_desc` needs of a replacement name -/
-def cleanName (s : JStr) : Bool := !s.isEmpty && !s.contains MapDesc.SEMI
-
-/-- decidable domain of `Thm.C14.undo_apply`: translated names are clean and no nest's translation collides with the
-translation of another used name -/
-def undoApplyDomain (m : Mappings) (ns : Nests) : Bool :=
-  match mapTable ns with
+/-- the harness reads mappings-side names through `apply_nests_to_mappings` on a set that only holds a probe class; that
+works when the table can be translated through the empty mapping set and the translated table is acyclic too -/
+def observable (ns : Nests) : Bool :=
+  match mapNests ns emptyMappings with
+  | some mapped => (mapTable mapped).isSome
   | none => false
-  | some t =>
-    t.all (fun kv => cleanName kv.2) &&
-    (usedNames m).all (fun c => cleanName c && t.all (fun kv => tableMap t c != kv.2 || c == kv.1))
 
-/-- source-side projection compared by the oracle: keys, first names, descriptors, member keys -/
-def srcView (m : Mappings) : List (JStr × Option JStr × List (MemberKey × JStr) × List (MemberKey × JStr)) :=
-  m.classes.map (fun e => (e.1, name0 e.2.names, e.2.fields.map (fun f => (f.1, f.2.desc)),
-    e.2.methods.map (fun f => (f.1, f.2.desc))))
+/-- decidable domain of `Thm.C14.names_agree` (acyclic table, jar with classes, every nest kept by the filter), restricted
+to what the harness can observe -/
+def namesAgreeDomain (jar : Jar) (ns : Nests) : Bool :=
+  (mapTable ns).isSome && (minVersion (classesOf jar)).isSome && allApply jar ns &&
+  (tableNames ns ++ (classesOf jar).map (·.name)).all cleanName && observable ns
+
+/-- `oracle-nest-jar-spec`: `filter_spec`, `attrs_spec`, `created_enclosing_partial`, `nothing_else` evaluated on one input.
+`none` = outside the domain (cyclic table or jar without classes). -/
+def nestJarSpecHolds (jar : Jar) (ns : Nests) : Option Bool :=
+  if (mapTable ns).isNone then none
+  else
+    match minVersion (classesOf jar) with
+    | none => none
+    | some v =>
+      match nestJar false jar ns with
+      | .error _ => some false
+      | .ok out =>
+        let kept := keptSpec jar ns
+        let created := createdSpec jar ns
+        let srcKeys := jar.map (·.1)
+        some (jar.all (fun e => AList.lookup e.1 out == some (emitEntry kept e.2)) &&
+          created.all (fun name => srcKeys.contains (name ++ DOT_CLASS) ||
+            AList.lookup (name ++ DOT_CLASS) out == some (.cls (addAttrs kept (newClass v name)))) &&
+          out.all (fun e => srcKeys.contains e.1 || created.any (fun name => name ++ DOT_CLASS == e.1)))
+
+/-- `oracle-apply-spec`: `apply_classes`, `apply_field`, `apply_method` evaluated on one input -/
+def applySpecHolds (m : Mappings) (ns : Nests) : Option Bool :=
+  match applyNests m ns with
+  | .error _ => none
+  | .ok m1 =>
+    let nm : JStr → JStr := fun c => (mapName ns c).getD c
+    some (m1.classes.length == m.classes.length && (m.classes.zip m1.classes).all (fun (e, e') =>
+      e'.1 == nm e.1 && name0 e'.2.names == some e'.1 && e'.2.doc == e.2.doc &&
+      e'.2.fields.length == e.2.fields.length && (e.2.fields.zip e'.2.fields).all (fun (f, f') =>
+        MapDesc.mapDesc nm f.2.desc == some f'.2.desc && some f'.1.1 == name0 f.2.names && f'.1.2 == f'.2.desc &&
+        f'.2.names == f.2.names && f'.2.doc == f.2.doc) &&
+      e'.2.methods.length == e.2.methods.length && (e.2.methods.zip e'.2.methods).all (fun (f, f') =>
+        MapDesc.mapDesc nm f.2.desc == some f'.2.desc && some f'.1.1 == name0 f.2.names && f'.1.2 == f'.2.desc &&
+        f'.2.names == f.2.names && f'.2.doc == f.2.doc && f'.2.params == f.2.params)))
+
+/-- `oracle-map-nests-spec`: `mapNests_keeps_every_nest` evaluated on one input -/
+def mapNestsSpecHolds (ns : Nests) (m : Mappings) : Option Bool :=
+  match mapNests ns m, remB m with
+  | some out, some r =>
+    some (ns.all (fun n => match mapNest r n with
+        | some n' => (match get out n'.className with | some o => ns.any (fun n2 => mapNest r n2 == some o) | none => false)
+        | none => false) &&
+      out.all (fun o => ns.any (fun n => mapNest r n == some o)) && keysUnique out)
+  | _, _ => none
+
+/-- `oracle-remap-names`: what the property asks of `nest_jar(remap = true)` on names (`remap_names_partial`, and
+`<new name>.class` for synthesised classes, which is where the code deviates) -/
+def remapNamesHolds (jar : Jar) (ns : Nests) : Option Bool :=
+  if (mapTable ns).isNone || (minVersion (classesOf jar)).isNone then none
+  else
+    let kept := keptSpec jar ns
+    let created := createdSpec jar ns
+    match mapTable kept with
+    | none => none
+    | some t =>
+      let f := tableMap t
+      let want := created.map (fun name => (f name ++ DOT_CLASS, some (f name))) ++ jar.map (renamedView f)
+      if !decide (want.map (·.1)).Nodup then none
+      else
+        match nestJar true jar ns with
+        | .ok out => some (out.map nameView == want)
+        | .error _ => some false
+
+def verdict : Option Bool → Ans
+  | none => .ok (tag "out-of-domain")
+  | some true => .ok (tag "pass")
+  | some false => .ok (list [tag "fail", tag "model"])
 
 def handleC14 (op : String) (args : List Sexp) : Option Ans :=
   match op, args with
@@ -135,6 +183,9 @@ def handleC14 (op : String) (args : List Sexp) : Option Ans :=
   | "nest-name-map", [ns, c] => do
     let ns ← nestsFrom ns; let c ← toJStr? c
     pure (match mapName ns c with | some r => .ok (ofJStr r) | none => .err "diverge")
+  | "nest-name-map-unguarded", [ns, c] => do
+    let ns ← nestsFrom ns; let _ ← toJStr? c
+    pure (if (mapTable ns).isNone then .err "diverge" else .ok (tag "terminated"))
   | "map-nests", [ns, m] => do
     let ns ← nestsFrom ns; let m ← mappingsFrom m
     pure (match mapNests ns m with | some r => .ok (nestsTo r) | none => .err "e")
@@ -153,13 +204,25 @@ def handleC14 (op : String) (args : List Sexp) : Option Ans :=
         else .ok (list [tag "fail", tag "names_differ"]))
   | "oracle-undo-apply", [m, ns] => do
     let ns ← nestsFrom ns; let m ← mappingsFrom m
-    pure (if !undoApplyDomain m ns then .ok (tag "out-of-domain")
+    pure (if !(wfMappings m && undoApplyDomain m ns) then .ok (tag "out-of-domain")
       else match applyNests m ns with
         | .error _ => .ok (tag "out-of-domain")
         | .ok m1 =>
           match undoNests m1 ns with
           | .error _ => .ok (list [tag "fail", tag "undo_err"])
           | .ok m2 => if srcView m2 == srcView m then .ok (tag "pass") else .ok (list [tag "fail", tag "differs"]))
+  | "oracle-nest-jar-spec", [ns, jar] => do
+    let ns ← nestsFrom ns; let jar ← jarFrom jar
+    pure (verdict (nestJarSpecHolds jar ns))
+  | "oracle-remap-names", [ns, jar] => do
+    let ns ← nestsFrom ns; let jar ← jarFrom jar
+    pure (verdict (remapNamesHolds jar ns))
+  | "oracle-apply-spec", [m, ns] => do
+    let ns ← nestsFrom ns; let m ← mappingsFrom m
+    pure (verdict (applySpecHolds m ns))
+  | "oracle-map-nests-spec", [ns, m] => do
+    let ns ← nestsFrom ns; let m ← mappingsFrom m
+    pure (verdict (mapNestsSpecHolds ns m))
   | _, _ => none
 
 def main : IO Unit := Driver.run handleC14
